@@ -1,6 +1,7 @@
 // Harness driver, group "alg": Jones / Quaternion / Pauli / Stokes / Mueller / Minkowski
 // templates of /repo instantiated at the exact rational scalar (properties C02 C03 C04 C09 C10 C15).
 #include "common.h"
+#include <cstring>
 #include "Pauli.h"
 #include "Minkowski.h"
 #include "Spinor.h"
@@ -25,6 +26,7 @@ static void apply_basis (Args& A)
   if (b == "lin") Pauli::basis().set_basis (Signal::Linear);
   else if (b == "cir") Pauli::basis().set_basis (Signal::Circular);
   else if (b == "ell") { double o = hexdouble(A.next()); double e = hexdouble(A.next());
+    for (int k=0;k<4;k++) A.next();   // the four libm leaf values (read by the model side only)
     Pauli::basis().set_basis (o, e); }
   else throw ProtocolError ("basis");
 }
@@ -179,6 +181,144 @@ int main ()
   OP("mk.inner") { auto a=A.vec<4>(); auto b=A.vec<4>(); O.put (Minkowski::inner(a,b)); };
   OP("mk.outer") { auto a=A.vec<4>(); auto b=A.vec<4>(); O.put (Minkowski::outer(a,b)); };
   OP("mk.innerS") { auto a=A.stokes(); auto b=A.stokes(); O.put (Minkowski::inner(a,b)); O.put (a.invariant()); };
+
+
+  // =====================================================================================
+  // Oracle operations: the property itself evaluated on the implementation alone, in exact
+  // arithmetic.  Every output value must be zero.
+  // =====================================================================================
+  typedef Jones<Rat> JR;
+  typedef Quaternion<CRat,H> BH;  typedef Quaternion<CRat,U> BU;
+  typedef Quaternion<Rat,H> QH;   typedef Quaternion<Rat,U> QU;
+
+  // ---- C03 ----
+  OP("o.c03.roundH") { auto q=A.biquat<H>(); O.put (BH(convert(convert(q)) - q)); };
+  OP("o.c03.roundU") { auto q=A.biquat<U>(); O.put (BU(unitary(convert(q)) - q)); };
+  OP("o.c03.roundJ") { auto j=A.jones(); O.put (JR(convert(convert(j)) - j)); O.put (JR(convert(unitary(j)) - j)); };
+  OP("o.c03.homH") { auto a=A.biquat<H>(); auto b=A.biquat<H>();
+    O.put (JR(convert(BH(a*b)) - convert(a)*convert(b)));
+    O.put (JR(convert(BH(a+b)) - (convert(a)+convert(b))));
+    O.put (JR(convert(BH(a-b)) - (convert(a)-convert(b))));
+    O.put (JR(convert(BH(-a)) - (-convert(a)))); };
+  OP("o.c03.homU") { auto a=A.biquat<U>(); auto b=A.biquat<U>();
+    O.put (JR(convert(BU(a*b)) - convert(a)*convert(b)));
+    O.put (JR(convert(BU(a+b)) - (convert(a)+convert(b))));
+    O.put (JR(convert(BU(a-b)) - (convert(a)-convert(b)))); };
+  OP("o.c03.homUr") { auto a=A.quat<U>(); auto b=A.quat<U>();
+    O.put (JR(convert(QU(a*b)) - convert(a)*convert(b)));
+    O.put (JR(convert(QU(a+b)) - (convert(a)+convert(b)))); };
+  OP("o.c03.scal") { auto a=A.biquat<H>(); auto u=A.biquat<U>(); auto c=A.cx();
+    O.put (JR(convert(BH(a*c)) - convert(a)*c));
+    O.put (JR(convert(BU(c*u)) - c*convert(u)));
+    O.put (JR(convert(BH::identity()*c) - JR::identity()*c)); };
+  OP("o.c03.funH") { auto a=A.biquat<H>(); JR j = convert(a);
+    O.put (CRat(det(j) - det(a))); O.put (CRat(trace(j) - trace(a))); O.put (Rat(norm(j) - norm(a)));
+    O.put (JR(conj(j) - convert(conj(a)))); O.put (JR(herm(j) - convert(herm(a))));
+    if (det(a) != CRat(0)) O.put (JR(inv(j) - convert(inv(a)))); };
+  OP("o.c03.funU") { auto a=A.biquat<U>(); JR j = convert(a);
+    O.put (CRat(det(j) - det(a))); O.put (CRat(trace(j) - trace(a))); O.put (Rat(norm(j) - norm(a)));
+    O.put (JR(conj(j) - convert(conj(a)))); O.put (JR(herm(j) - convert(herm(a))));
+    if (det(a) != CRat(0)) O.put (JR(inv(j) - convert(inv(a)))); };
+  OP("o.c03.real") { auto h=A.quat<H>(); auto u=A.quat<U>();
+    JR jh = convert(h); O.put (JR(herm(jh) - jh));
+    O.put (Rat(det(jh).real() - det(h))); O.put (det(jh).imag()); O.put (Rat(norm(jh) - norm(h)));
+    JR ju = convert(u); O.put (JR(ju*herm(ju) - JR::identity()*CRat(det(u))));
+    O.put (Rat(det(ju).real() - det(u))); O.put (det(ju).imag()); O.put (Rat(norm(ju) - norm(u)));
+    O.put (JR(convert(conj(h)) - conj(jh))); O.put (JR(convert(herm(u)) - herm(ju))); O.put (JR(convert(conj(u)) - conj(ju)));
+    if (det(h) != 0) O.put (JR(convert(inv(h))*jh - JR::identity()));
+    if (det(u) != 0) O.put (JR(convert(inv(u))*ju - JR::identity())); };
+  OP("o.c03.units") {
+    CRat one(1), zero(0), i(0,1);
+    JR sig[4] = { JR(one,zero,zero,one), JR(one,zero,zero,-one), JR(zero,one,one,zero), JR(zero,-i,i,zero) };
+    for (unsigned k=0;k<4;k++) {
+      QH h; h[k] = 1; O.put (JR(convert(h) - sig[k]));
+      BH bh; bh[k] = one; O.put (JR(convert(bh) - sig[k]));
+      O.put (JR(JR(Pauli::matrix(k)) - sig[k]));
+      QU u; u[k] = 1; BU bu; bu[k] = one;
+      JR expect = (k == 0) ? sig[0] : JR(sig[k]*i);
+      O.put (JR(convert(u) - expect)); O.put (JR(convert(bu) - expect));
+    } };
+  OP("o.c03.mixed") { auto j=A.jones(); auto bh=A.biquat<H>(); auto bu=A.biquat<U>(); auto h=A.quat<H>(); auto u=A.quat<U>();
+    O.put (JR(JR(j*bh) - j*convert(bh))); O.put (JR(JR(j*bu) - j*convert(bu)));
+    O.put (JR(JR(j*h) - j*convert(h))); O.put (JR(JR(j*u) - j*convert(u)));
+    O.put (JR(JR(h*j) - convert(h)*j)); O.put (JR(JR(u*j) - convert(u)*j));
+    O.put (JR(JR(h*u) - convert(h)*convert(u))); O.put (JR(JR(u*h) - convert(u)*convert(h))); };
+
+  // ---- C04 ----
+  OP("o.c04.ring") { auto a=A.jones(); auto b=A.jones(); auto c=A.jones(); JR I = JR::identity();
+    O.put (JR(JR(JR(a*b)*c) - JR(a*JR(b*c)))); O.put (JR(JR(a*JR(b+c)) - JR(JR(a*b)+JR(a*c))));
+    O.put (JR(JR(JR(a+b)*c) - JR(JR(a*c)+JR(b*c)))); O.put (JR(JR(JR(a+b)+c) - JR(a+JR(b+c))));
+    O.put (JR(JR(a*I) - a)); O.put (JR(JR(I*a) - a)); O.put (JR(JR(a+b) - JR(b+a))); O.put (JR(JR(a-b) - JR(a+JR(-b)))); };
+  OP("o.c04.scalar") { auto a=A.jones(); auto b=A.jones(); auto c=A.cx(); auto r=A.rat();
+    O.put (JR(JR(JR(a*c)*b) - JR(JR(a*b)*c))); O.put (JR(JR(a*JR(c*b)) - JR(c*JR(a*b))));
+    O.put (JR(JR(JR(a*r)*b) - JR(JR(a*b)*r))); O.put (JR(JR(a*JR(r*b)) - JR(r*JR(a*b))));
+    O.put (JR(JR(a*c) - JR(a*JR(c)))); 
+    if (c != CRat(0)) { O.put (JR(JR(JR(a/c)*b) - JR(JR(a*b)/c))); O.put (JR(JR(JR(a/c)*c) - a)); }
+    if (r != 0) { O.put (JR(JR(JR(a/r)*b) - JR(JR(a*b)/r))); O.put (JR(JR(JR(a/r)*r) - a)); } };
+  OP("o.c04.dettrace") { auto a=A.jones(); auto b=A.jones(); auto c=A.cx();
+    O.put (CRat(det(JR(a*b)) - det(a)*det(b))); O.put (CRat(trace(JR(a+b)) - (trace(a)+trace(b))));
+    O.put (CRat(trace(JR(a*b)) - trace(JR(b*a)))); O.put (CRat(trace(JR(c*a)) - c*trace(a)));
+    O.put (JR(JR(JR(a*a) - JR(a*trace(a))) + JR(JR::identity()*det(a)))); };
+  OP("o.c04.conjherm") { auto a=A.jones(); auto b=A.jones();
+    O.put (JR(conj(JR(a*b)) - JR(conj(a)*conj(b)))); O.put (JR(conj(JR(a+b)) - JR(conj(a)+conj(b))));
+    O.put (JR(herm(JR(a*b)) - JR(herm(b)*herm(a)))); O.put (JR(herm(herm(a)) - a)); O.put (JR(conj(conj(a)) - a));
+    CRat t = trace(JR(a*herm(a))); O.put (Rat(norm(a) - t.real())); O.put (t.imag()); };
+  OP("o.c04.inv") { auto a=A.jones();
+    if (det(a) != CRat(0)) { O.put (JR(JR(a*inv(a)) - JR::identity())); O.put (JR(JR(inv(a)*a) - JR::identity())); } };
+  OP("o.c04.matrix") { auto a=A.jones(); auto b=A.jones();
+    Matrix<2,2,CRat> ma = a; Matrix<2,2,CRat> mb = b;
+    O.put (JR(JR(ma) - a)); Matrix<2,2,CRat> mab = JR(a*b); Matrix<2,2,CRat> prod = ma*mb;
+    for (unsigned i=0;i<2;i++) for (unsigned k=0;k<2;k++) { O.put (CRat(mab[i][k] - prod[i][k])); O.put (CRat(ma[i][k] - a(i,k))); } };
+  OP("o.c04.diag") { auto a=A.jones(); bool expect = (a.j01 == CRat(0)) && (a.j10 == CRat(0)); O.put (Rat(int(a.is_diagonal()) - int(expect))); };
+  OP("o.c04.p") { auto a=A.jones(); Rat p = a.p(); Rat tr = trace(a).real(); Rat d = det(a).real();
+    O.put (Rat(p*p*tr*tr - (tr*tr - 4*d))); O.put (Rat(p < 0 ? 1 : 0)); };
+
+  // ---- C15 ----
+  OP("o.c15.inner") { auto a=A.stokes(); auto b=A.stokes(); auto c=A.stokes(); auto s=A.rat();
+    Rat dot = a[1]*b[1] + a[2]*b[2] + a[3]*b[3];
+    O.put (Rat(Minkowski::inner(a,b) - (a[0]*b[0] - dot))); O.put (Rat(Minkowski::inner(a,b) - Minkowski::inner(b,a)));
+    O.put (Rat(Minkowski::inner(a,a) - a.invariant()));
+    Stokes<Rat> l = a + s*c;
+    O.put (Rat(Minkowski::inner(l,b) - (Minkowski::inner(a,b) + s*Minkowski::inner(c,b)))); };
+  OP("o.c15.outer") { auto a=A.stokes(); auto b=A.stokes(); auto c=A.stokes(); auto s=A.rat();
+    Matrix<4,4,Rat> ab = Minkowski::outer(a,b); Matrix<4,4,Rat> ba = Minkowski::outer(b,a); Matrix<4,4,Rat> aa = Minkowski::outer(a,a);
+    Pauli::basis().set_basis (Signal::Linear);
+    JR ra = convert(a); JR rb = convert(b);
+    for (unsigned i=0;i<4;i++) for (unsigned j=0;j<4;j++) {
+      JR si (Pauli::matrix(i)); JR sj (Pauli::matrix(j));
+      O.put (Rat(ab[i][j] - ba[j][i]));
+      CRat t1 = trace (JR(JR(JR(si*ra)*sj)*ra)); O.put (Rat(aa[i][j] - t1.real())); O.put (t1.imag());
+      CRat t2 = trace (JR(JR(JR(si*ra)*sj)*rb)) + trace (JR(JR(JR(si*rb)*sj)*ra));
+      O.put (Rat(ab[i][j] + ba[i][j] - t2.real())); O.put (t2.imag());
+    }
+    Stokes<Rat> l = a + s*c; Matrix<4,4,Rat> lb = Minkowski::outer(l,b); Matrix<4,4,Rat> cb = Minkowski::outer(c,b);
+    Matrix<4,4,Rat> bl = Minkowski::outer(b,l); Matrix<4,4,Rat> bc = Minkowski::outer(b,c);
+    for (unsigned i=0;i<4;i++) for (unsigned j=0;j<4;j++) {
+      O.put (Rat(lb[i][j] - (ab[i][j] + s*cb[i][j]))); O.put (Rat(bl[i][j] - (ba[i][j] + s*bc[i][j]))); } };
+
+  // ---- C02 ----
+  OP("o.c02.round") { BasisRestore r; apply_basis (A); auto s=A.stokes(); JR rho = convert(s);
+    O.put (Stokes<Rat>(coherency(rho) - s)); O.put (CRat(trace(rho) - s[0])); O.put (CRat(Rat(4)*det(rho) - CRat(s.invariant())));
+    O.put (Stokes<Rat>(standard(natural(s)) - s)); O.put (Stokes<Rat>(coherency(natural(s)) - Rat(2)*s)); };
+  OP("o.c02.roundC") { BasisRestore r; apply_basis (A); auto s=A.cstokes(); JR rho = convert(s);
+    O.put (Stokes<CRat>(complex_coherency(rho) - s)); O.put (CRat(trace(rho) - s[0]));
+    CRat inv = s[0]*s[0] - s[1]*s[1] - s[2]*s[2] - s[3]*s[3]; O.put (CRat(CRat(4)*det(rho) - inv)); };
+  OP("o.c02.transform") { BasisRestore r; apply_basis (A); auto s=A.stokes(); auto j=A.jones();
+    Stokes<Rat> t = transform (s, j);
+    O.put (Stokes<Rat>(t - coherency (JR(JR(j*convert(s))*herm(j)))));
+    Matrix<4,4,Rat> M = Mueller (j); O.put (Stokes<Rat>(t - Stokes<Rat>(M*s)));
+    O.put (Rat(t.invariant() - norm(det(j))*s.invariant())); };
+  OP("o.c02.transformC") { BasisRestore r; apply_basis (A); auto s=A.cstokes(); auto j=A.jones();
+    Stokes<CRat> t = transform (s, j); Matrix<4,4,Rat> M = Mueller (j);
+    for (unsigned i=0;i<4;i++) { CRat acc (0); for (unsigned k=0;k<4;k++) acc += CRat(M[i][k])*s[k]; O.put (CRat(t[i] - acc)); } };
+  OP("o.c02.compose") { BasisRestore r; apply_basis (A); auto a=A.jones(); auto b=A.jones();
+    Matrix<4,4,Rat> l = Mueller (JR(a*b)); Matrix<4,4,Rat> m = Mueller(a) * Mueller(b);
+    for (unsigned i=0;i<4;i++) for (unsigned k=0;k<4;k++) O.put (Rat(l[i][k] - m[i][k])); };
+  OP("o.c02.grad") { BasisRestore r; apply_basis (A); auto j=A.jones(); auto g=A.jones(); auto t=A.rat();
+    Matrix<4,4,Rat> l = Mueller (JR(j + JR(g*t))); Matrix<4,4,Rat> m0 = Mueller(j); Matrix<4,4,Rat> m1 = Mueller(j,g); Matrix<4,4,Rat> m2 = Mueller(g);
+    for (unsigned i=0;i<4;i++) for (unsigned k=0;k<4;k++) O.put (Rat(l[i][k] - (m0[i][k] + t*m1[i][k] + t*t*m2[i][k]))); };
+  OP("o.c02.transformM") { BasisRestore r; apply_basis (A); auto j=A.jones(); auto rho=A.jones();
+    O.put (JR(transform (Mueller(j), rho) - JR(JR(j*rho)*herm(j)))); };
 
   return run_stream (ops);
 }
